@@ -97,7 +97,10 @@ def get_eos(eos):
 def fit_to_eos(volumes, fe, eos):
     """Fit volume-energy data to EOS."""
     fit = EOSFit(volumes, fe, eos)
-    fit.fit([fe[len(fe) // 2], 1.0, 4.0, volumes[len(volumes) // 2]])
+    # Initial guess is taken at the lowest energy point, so that it does not
+    # depend on the order of the volume points.
+    i_min = int(np.argmin(fe))
+    fit.fit([fe[i_min], 1.0, 4.0, volumes[i_min]])
 
     return fit.parameters
 
